@@ -40,6 +40,65 @@ fn show(a: &Array2<Dual>, b: &Array1<Dual>) -> String {
     format!("A = [{}], b = [{}]", rows.join(", "), b.iter().map(f).collect::<Vec<_>>().join(", "))
 }
 
+/// reference products written with explicit loops (independent of dmul21_ / dmul22_)
+fn mv(a: &Array2<Dual>, x: &Array1<Dual>) -> Array1<Dual> {
+    Array1::from_vec((0..a.nrows()).map(|i| (0..a.ncols()).fold(Dual::new(0.0, vec![]), |acc, j| &acc + &(&a[[i, j]] * &x[j]))).collect())
+}
+fn mm(a: &Array2<Dual>, b: &Array2<Dual>) -> Array2<Dual> {
+    let mut v = Vec::new();
+    for i in 0..a.nrows() {
+        for j in 0..b.ncols() {
+            v.push((0..a.ncols()).fold(Dual::new(0.0, vec![]), |acc, k| &acc + &(&a[[i, k]] * &b[[k, j]])));
+        }
+    }
+    Array2::from_shape_vec((a.nrows(), b.ncols()), v).unwrap()
+}
+
+fn close_dual(x: &Dual, y: &Dual) -> bool {
+    let r = x - y;
+    let mut vars: Vec<String> = x.vars().iter().cloned().collect();
+    for v in y.vars().iter() {
+        if !vars.contains(v) {
+            vars.push(v.clone());
+        }
+    }
+    r.real().abs() < TOL && (vars.is_empty() || r.gradient1(vars).iter().all(|g| g.abs() < TOL))
+}
+
+fn probe_mul(func: &str) -> bool {
+    let d = |r: f64, v: &str| if v.is_empty() { Dual::new(r, vec![]) } else { Dual::new(r, vec![v.to_string()]) };
+    let a = Array2::from_shape_vec((2, 3), vec![d(1.0, "p"), d(2.0, ""), d(-1.0, ""), d(0.5, ""), d(0.0, "q"), d(3.0, "")]).unwrap();
+    let b = Array2::from_shape_vec((3, 4), (0..12).map(|k| d(k as f64 * 0.5 - 2.0, if k % 5 == 0 { "r" } else { "" })).collect()).unwrap();
+    let x = Array1::from_vec(vec![d(1.0, "s"), d(-2.0, ""), d(0.25, "p")]);
+    let got = std::panic::catch_unwind(std::panic::AssertUnwindSafe(|| dmul22_(&a.view(), &b.view())));
+    let exp = mm(&a, &b);
+    match got {
+        Ok(g) if g.dim() == exp.dim() && g.iter().zip(exp.iter()).all(|(u, v)| close_dual(u, v)) => {}
+        Ok(g) => {
+            report("probe", func, "dmul22_ on a 2x3 times a 3x4 matrix of dual numbers vs the triple loop", &format!("shape {:?}, values {:?}", g.dim(), g.map(|z| z.real())), &format!("shape {:?}, values {:?}", exp.dim(), exp.map(|z| z.real())), false);
+            return true;
+        }
+        Err(_) => {
+            report("probe", func, "dmul22_ on a 2x3 times a 3x4 matrix of dual numbers", "PANIC", "the 2x4 product", false);
+            return true;
+        }
+    }
+    let got = std::panic::catch_unwind(std::panic::AssertUnwindSafe(|| dmul21_(&a.view(), &x.view())));
+    let exp = mv(&a, &x);
+    match got {
+        Ok(g) if g.len() == exp.len() && g.iter().zip(exp.iter()).all(|(u, v)| close_dual(u, v)) => {}
+        Ok(g) => {
+            report("probe", func, "dmul21_ on a 2x3 matrix times a 3-vector of dual numbers vs the double loop", &format!("{:?}", g.map(|z| z.real())), &format!("{:?}", exp.map(|z| z.real())), false);
+            return true;
+        }
+        Err(_) => {
+            report("probe", func, "dmul21_ on a 2x3 matrix times a 3-vector of dual numbers", "PANIC", "the product", false);
+            return true;
+        }
+    }
+    false
+}
+
 fn check_dual(func: &str, a: &Array2<Dual>, b: &Array1<Dual>, lsq: bool) -> bool {
     let x = match std::panic::catch_unwind(std::panic::AssertUnwindSafe(|| dsolve(&a.view(), &b.view(), lsq))) {
         Ok(x) => x,
@@ -49,8 +108,8 @@ fn check_dual(func: &str, a: &Array2<Dual>, b: &Array1<Dual>, lsq: bool) -> bool
         }
     };
     // the system whose residual must vanish: A x = b, or the normal equations A^T A x = A^T b
-    let (aa, bb) = if lsq { (dmul22_(&a.t(), &a.view()), dmul21_(&a.t(), &b.view())) } else { (a.clone(), b.clone()) };
-    let ax = dmul21_(&aa.view(), &x.view());
+    let (aa, bb) = if lsq { (mm(&a.t().to_owned(), a), mv(&a.t().to_owned(), b)) } else { (a.clone(), b.clone()) };
+    let ax = mv(&aa, &x);
     let mut vars: Vec<String> = Vec::new();
     for d in a.iter().chain(b.iter()) {
         for v in d.vars().iter() {
@@ -205,7 +264,7 @@ fn probe_f64(func: &str) -> bool {
 pub fn probe(func: &str) -> bool {
     std::panic::set_hook(Box::new(|_| {}));
     match func {
-        "dsolve21_" | "dsolve" | "dsolve_upper21_" | "dmul11_" | "dmul21_" | "dmul22_" | "argabsmax" | "row_swap" | "el_swap" => probe_dual(func) || probe_dual2(func),
+        "dsolve21_" | "dsolve" | "dsolve_upper21_" | "dmul11_" | "dmul21_" | "dmul22_" | "argabsmax" | "row_swap" | "el_swap" => probe_mul(func) || probe_dual(func) || probe_dual2(func),
         "fdsolve21_" | "fdsolve" | "fdsolve_upper21_" | "fdmul11_" | "fdmul21_" => probe_f64(func),
         _ => false,
     }
